@@ -3,7 +3,7 @@
 
 use crate::crash::{self, CrashOpts, Mode, Recorded};
 use crate::framework::Ctx;
-use crate::model::{CMP_HAS, CMP_WRITABLE};
+use crate::model::{CMP_ALL, CMP_HAS};
 use crate::ops::{CacheMode, Op};
 use crate::repl::{self, Pair, Plan, RoundResult};
 use crate::rng::Rng;
@@ -145,7 +145,7 @@ pub fn replica_case_mode(ctx: &mut Ctx, id: u64, r: &mut Rng, mode: Mode) {
     let before = ctx.counters.get("crash_points").copied().unwrap_or(0);
     let o = CrashOpts {
         mode,
-        mask: CMP_WRITABLE | CMP_HAS,
+        mask: CMP_ALL,
         get_cap: 64,
         only: None,
         only_kind: None,
